@@ -173,18 +173,50 @@ def functions(tree):
 
 
 class _Rename(ast.NodeTransformer):
-    def __init__(self, mapping):
+    def __init__(self, mapping, deep=frozenset()):
         self.m = mapping
+        self.deep = set(deep)       # names that nested scopes share with the function (closure variables): renamed there too
+        self.depth = 0
 
     def visit_Name(self, node):
-        if node.id in self.m:
+        if node.id in self.m and (self.depth == 0 or node.id in self.deep):
             return ast.copy_location(ast.Name(id=self.m[node.id], ctx=node.ctx), node)
+        return node
+
+    def visit_Nonlocal(self, node):
+        node.names = [self.m[n] if (n in self.m and n in self.deep) else n for n in node.names]
         return node
 
     def generic_visit(self, node):
         if isinstance(node, _SCOPES):
-            return node
+            if not self.deep:
+                return node
+            self.depth += 1
+            try:
+                return super().generic_visit(node)
+            finally:
+                self.depth -= 1
         return super().generic_visit(node)
+
+
+def _shared_ok(fn) -> set[str]:
+    """Closure variables that every nested scope only reads, or re-binds under `nonlocal`: safe to rename everywhere."""
+    bad, seen = set(), set()
+    for n in _own_nodes(fn):
+        if not isinstance(n, _SCOPES):
+            continue
+        inner = list(ast.walk(n))
+        names = {x.id for x in inner if isinstance(x, ast.Name)}
+        seen |= names
+        nonlocal_ = {nm for x in inner if isinstance(x, ast.Nonlocal) for nm in x.names}
+        params = {a.arg for x in inner if isinstance(x, ast.arguments) for a in x.posonlyargs + x.args + x.kwonlyargs} | \
+                 {x.vararg.arg for x in inner if isinstance(x, ast.arguments) and x.vararg} | {x.kwarg.arg for x in inner if isinstance(x, ast.arguments) and x.kwarg}
+        stored = {x.id for x in inner if isinstance(x, ast.Name) and isinstance(x.ctx, (ast.Store, ast.Del))}
+        comp = {y.id for x in inner if isinstance(x, ast.comprehension) for y in ast.walk(x.target) if isinstance(y, ast.Name)}
+        bad |= params | comp | (stored - nonlocal_)
+        if isinstance(n, ast.ClassDef):
+            bad |= names
+    return seen - bad
 
 
 def dename(tree: ast.AST, rel: str, src_digest: str | None = None) -> int:
@@ -219,13 +251,14 @@ def dename(tree: ast.AST, rel: str, src_digest: str | None = None) -> int:
                     votes[a_][b_] += 1
         loc = locals_of(fn)
         captured = _captured(fn)
+        shared = _shared_ok(fn) if captured else set()
         all_names = {x.id for x in _own_nodes(fn) if isinstance(x, ast.Name)} | captured
         mapping = {}
         for a_, v in votes.items():
             if len(v) != 1:
                 continue
             b_ = next(iter(v))
-            if a_ == b_ or a_ not in loc or a_ in captured:
+            if a_ == b_ or a_ not in loc or (a_ in captured and a_ not in shared):
                 continue
             mapping[a_] = b_
         # injective, and the new name is free in the function (or is itself renamed away)
@@ -235,7 +268,7 @@ def dename(tree: ast.AST, rel: str, src_digest: str | None = None) -> int:
         mapping = {a_: b_ for a_, b_ in mapping.items() if b_ not in all_names or b_ in mapping}
         if not mapping:
             continue
-        rn = _Rename(mapping)
+        rn = _Rename(mapping, deep={a_ for a_ in mapping if a_ in captured})
         fn.body = [rn.visit(s) for s in fn.body]
         total += len(mapping)
     return total
@@ -257,5 +290,59 @@ def build_reference(root: str, rels: list[str]) -> dict:
             if any(names for _, names in sig):
                 d[key] = [[t, n] for t, n in sig]
         d["#funcs"] = sorted({q for q, _ in functions(tree)})
+        d["#shapes"] = {q: [t for t, _ in signature(fn)] for q, fn in functions(tree)}
         out[rel] = d
     return out
+
+
+def refunc(tree: ast.AST, rel: str) -> int:
+    """Undo renames of private functions, methods and nested helpers: a function that is new with respect to the reference
+    while a function of the same scope has gone, and whose statement shapes are (nearly) those of the one that has gone, is
+    given its reference name back - definition and every use of the name in the module."""
+    ref = _ref().get(rel) or {}
+    known = set(ref.get("#funcs", []))
+    shapes = ref.get("#shapes", {})
+    if not known:
+        return 0
+    cur = {}
+    for q, fn in functions(tree):
+        cur.setdefault(q, fn)
+    new = [q for q in cur if q not in known]
+    gone = [q for q in known if q not in cur]
+    if not new or not gone:
+        return 0
+
+    def scope(q):
+        return q.rsplit(".", 1)[0] if "." in q else ""
+    n = 0
+    used = {x.id for x in ast.walk(tree) if isinstance(x, ast.Name)} | {x.attr for x in ast.walk(tree) if isinstance(x, ast.Attribute)} \
+        | {f.name for f in ast.walk(tree) if isinstance(f, (ast.FunctionDef, ast.AsyncFunctionDef))}
+    pairs = []
+    for q in new:
+        fn = cur[q]
+        sig = [t for t, _ in signature(fn)]
+        best, score = None, 0.0
+        for g_ in gone:
+            if scope(g_) != scope(q) or g_ not in shapes:
+                continue
+            r = difflib.SequenceMatcher(a=sig, b=shapes[g_], autojunk=False).ratio() if (sig or shapes[g_]) else 0.0
+            if r > score:
+                best, score = g_, r
+        if best is not None and score >= 0.6 and len(fn.args.args) == len(fn.args.args):
+            pairs.append((q, best, score))
+    # unique matches only
+    for q, g_, score in pairs:
+        if sum(1 for p in pairs if p[1] == g_) != 1:
+            continue
+        old_name, new_name = g_.rsplit(".", 1)[-1], q.rsplit(".", 1)[-1]
+        if old_name in used:
+            continue
+        for x in ast.walk(tree):
+            if isinstance(x, ast.Name) and x.id == new_name:
+                x.id = old_name
+            elif isinstance(x, ast.Attribute) and x.attr == new_name:
+                x.attr = old_name
+            elif isinstance(x, (ast.FunctionDef, ast.AsyncFunctionDef)) and x.name == new_name:
+                x.name = old_name
+        n += 1
+    return n
